@@ -164,7 +164,28 @@ def arith_rule(run, f, rid):
             if not tf:
                 why.append("u128 nanoseconds are not converted with try_from")
             okfb = False
-            for (x, t) in tf:
+            # path by path first: wherever a path shows the conversion FAILED, what the function returns on it is u64::MAX
+            # (the failure may travel as `None` through `.ok()` and a let-else, or through a helper's Option)
+            from analysis.table import PathWalker, result_outcomes, value_on_path
+            n_fail = n_bad = n_inf = n_ex = 0
+            for (pth, _c, sv) in PathWalker(nb).walk(0, lambda bid, t_: ("return",) if t_["k"] == "return" else None):
+                if sv[0] != "return":
+                    continue
+                oc, feas = result_outcomes(nb, ndu, pth)
+                if not feas:
+                    n_inf += 1
+                    continue
+                n_ex += 1
+                if any(oc.get(x) == "err" for (x, _t) in tf if x in pth):
+                    n_fail += 1
+                    if value_on_path(nb, pth, 0) != ("const", "18446744073709551615"):
+                        n_bad += 1
+            run.paths(rid, fn + "/overflow-fallback", b.loc(), n_ex, n_inf)
+            if n_fail and not n_bad:
+                okfb = True
+            elif n_bad:
+                why.append("on %d path(s) where the conversion to u64 fails the result is not u64::MAX" % n_bad)
+            for (x, t) in ([] if n_fail else tf):
                 va = variant_arms(nb, ncfg, ndu, t["dest"]["l"], ncfg.after(x))
                 if va and va[0].get("Err") is not None:
                     for y in ncfg.reachable({va[0]["Err"]}):
